@@ -150,7 +150,10 @@ def judge(d):
                 warnings.simplefilter("ignore")
                 sub = SubtomogramLoader(tomo, Molecules([pos[i] * scale]), order=order, scale=scale, output_shape=tuple(shape)).load(0)
             e2 = float(np.abs(sub - tmpl).max())
-            if not e2 <= 1e-4 * mx:
+            # the loader samples at float32(pos_nm) / scale, which is off the voxel by up to ~eps32 * coordinate (1e-4 px at
+            # coordinates of a few thousand): an interpolation error of that order is not a misplacement
+            tol_rt = (1e-4 + 16 * float(np.finfo(np.float32).eps) * float(np.abs(pos[i]).max())) * mx
+            if not e2 <= tol_rt:
                 out.append(viol("C14/loader-round-trip", f"{tag}: component {ci} molecule {i}: subtomogram loaded at the simulated molecule differs "
                                 f"from the template by {e2:.4g} (box {tuple(shape)})", err=e2))
     # (c) partition / order independence
@@ -226,6 +229,8 @@ def mol_pose(draw, shape, vol, only_grid=False):
             k = draw(st.integers(0, vol[a] - 1))
             pos.append(k + (0.5 if (shape[a] % 2 == 0 and cls == "grid") else 0.0) if cls == "grid" else round(draw(st.floats(0, vol[a] - 1)), 3))
             continue
+        if vol[a] > 1000 and cls in ("grid", "frac", "rot"):
+            lo = max(lo, hi - 80)
         if cls == "grid":
             k = draw(st.integers(lo, hi))
             pos.append(k + (0.5 if shape[a] % 2 == 0 else 0.0))
@@ -249,6 +254,9 @@ def cases(draw):
     vol = [draw(st.integers(24, 40)) for _ in range(3)]
     if draw(st.integers(0, 5)) == 0:
         vol[draw(st.integers(0, 2))] = draw(st.integers(3, 8))  # a slab thinner than the templates
+    elif draw(st.integers(0, 5)) == 0:
+        # one axis as long as in a real tomogram: float32 positions in nm lose ~1e-4 px at coordinates of a few thousand
+        vol[draw(st.integers(0, 2))] = draw(st.sampled_from([1040, 2100, 3100]))
     ncomp = draw(st.integers(1, 3))
     comps = []
     for _ in range(ncomp):
@@ -268,6 +276,8 @@ def labels(d):
     labs = {f"order:{d['order']}", f"ncomp:{len(d['components'])}", "scale:1" if d["scale"] == 1.0 else "scale:other"}
     if min(d["vol"]) < 9:
         labs.add("thin-volume")
+    if max(d["vol"]) > 1000:
+        labs.add("long-axis")
     for c in d["components"]:
         labs |= set(gen.parity_class(c["shape"]))
         for m in c["mols"]:
